@@ -191,6 +191,7 @@ type replayFile struct {
 	Where    string               `json:"where,omitempty"`
 	PathCond string               `json:"path_condition,omitempty"`
 	Native   string               `json:"native_outcome,omitempty"`
+	Tier     int                  `json:"tier"` // 0 quick, 1 thorough: verifTier() of the run that produced the tape
 }
 
 // runReplay executes the tape natively; returns the VERIF-REPLAY line (or an error description).
@@ -205,6 +206,11 @@ func runReplay(rf *replayFile, tapePath, overlayPath string, tierN int) (string,
 		args = append([]string{"test", "-race"}, args[1:]...)
 		args[6] = "600s"
 		env = append(env, "VERIF_RACE_ROUNDS=40", "VERIF_WATCHDOG=300", "GORACE=halt_on_error=0")
+	}
+	if rf.Kind == "deadlock" && strings.HasSuffix(rf.AssertID, "/recursive-rlock") {
+		// both closures of verifRace are repeated concurrently for a few seconds: the recursive read lock deadlocks as
+		// soon as the writer queues up between the two RLock calls; the watchdog then reports a timeout
+		env = append(env, "VERIF_STRESS=4", "VERIF_WATCHDOG=20")
 	}
 	cmd := exec.Command("go", args...)
 	cmd.Dir = repoDir
@@ -343,7 +349,7 @@ func cmdReplay(args []string) int {
 		return 2
 	}
 	abs, _ := filepath.Abs(args[0])
-	line, full := runReplay(&rf, abs, ov, 1)
+	line, full := runReplay(&rf, abs, ov, rf.Tier)
 	fmt.Println("native:", line)
 	if os.Getenv("VERIF_VERBOSE") != "" {
 		fmt.Println(full)
@@ -661,7 +667,11 @@ func cmdCheck(args []string) int {
 	for _, c := range cands {
 		key := c.Harness + "|" + c.AssertID + "|" + c.Known + "|" + c.Kind
 		seenKey[key]++
-		if seenKey[key] > 2 {
+		limit := 2
+		if strings.HasSuffix(c.AssertID, "/recursive-rlock") {
+			limit = 8 // the stress confirmation needs a writer that takes the write lock on every call: try more tapes
+		}
+		if seenKey[key] > limit {
 			continue
 		}
 		if c.Known != "" {
@@ -673,7 +683,7 @@ func cmdCheck(args []string) int {
 			continue
 		}
 		rf := &replayFile{Property: *prop, Harness: c.Harness, Package: pkgOf[c.Harness], AssertID: c.AssertID, Kind: c.Kind,
-			Msg: c.Msg, Known: c.Known, Tape: c.Tape, Decisions: c.Decisions, Where: c.Where, PathCond: c.PathCond}
+			Msg: c.Msg, Known: c.Known, Tape: c.Tape, Decisions: c.Decisions, Where: c.Where, PathCond: c.PathCond, Tier: tierN}
 		path := filepath.Join(replayDir, fmt.Sprintf("%s-%d.json", runTag, replayed+1))
 		data, _ := json.MarshalIndent(rf, "", " ")
 		os.WriteFile(path, data, 0o644)
